@@ -2,6 +2,7 @@
   The durable relation `D` on the flat fragment and its preservation.
 -/
 import TvFs.Proofs.Durable
+import TvFs.Proofs.RefineX
 
 namespace TV.Fs
 
@@ -79,7 +80,7 @@ theorem hasCreateDir_push (pend : List POp) (o : POp) (q : Path) :
 
 /-- creating the file `[n]` -/
 theorem D.create {fs : Fs} {l : Live} {dur : List (Nat × Bytes)} {dents : List ((Nat × Nat) × Ent)}
-    (h : D fs l dur dents) (hR : FsRel fs l) (n : Nat) (hp : entAt l [n] = none) :
+    (h : D fs l dur dents) (hR : FsRelX fs l) (n : Nat) (hp : entAt l [n] = none) :
     D (push fs (.createFile [n])) (createL l [n]) dur dents := by
   have hp0 : ([n] : Path) ≠ [] := by simp
   have hnf : isFileAt l [n] = false := isFileAt_of_none hp
@@ -195,7 +196,7 @@ theorem any_of_filter_any {α : Type} (l : List α) (f g : α → Bool) (h : (l.
   exact ⟨x, (List.mem_filter.mp hx).1, hg⟩
 
 theorem D.syncFile {fs fs' : Fs} {l : Live} {dur : List (Nat × Bytes)} {dents : List ((Nat × Nat) × Ent)}
-    (h : D fs l dur dents) (hR : FsRel fs l) {n id : Nat} (hp : entAt l [n] = some (.file id))
+    (h : D fs l dur dents) (hR : FsRelX fs l) {n id : Nat} (hp : entAt l [n] = some (.file id))
     (hs : syncFile fs [n] = .ok fs') : D fs' l (ninsert id (liveContent l id) dur) dents := by
   have sp := syncFile_persist hs
   have hcf : ∀ q, hasCreateFile fs'.pending q = hasCreateFile fs.pending q := by
@@ -269,7 +270,7 @@ theorem sSyncDir_root (l : Live) (sp : Spec) (hf : Flat l) (hk : ∀ k e, (k, e)
   exact ⟨trivial, trivial⟩
 
 theorem D.syncDirRoot {fs fs' : Fs} {l : Live} {dur : List (Nat × Bytes)} {dents : List ((Nat × Nat) × Ent)}
-    (h : D fs l dur dents) (hR : FsRel fs l) (hs : syncDir fs [] = .ok fs') :
+    (h : D fs l dur dents) (hR : FsRelX fs l) (hs : syncDir fs [] = .ok fs') :
     D fs' l dur (l.ents.map (fun kv => ((0, kv.1.getLastD 0), kv.2))) := by
   unfold syncDir at hs
   split at hs
